@@ -22,6 +22,8 @@ are lists with a head atom:
   (site 1|2)            which of two call sites of the same derive function (same types, other parameter
                         names; the instrumented functions of site 2 have other tags)
   (variadic i)          function i of the call has a variadic last parameter: such calls are refused
+  (ifacechain 1) (zero b) compose: stage 0's first result is a pointer received by an interface parameter of stage 1;
+                        with (zero 1) it is the nil pointer (arrives as a non-nil interface, observed as 99)
 
 Helpers that return a function value (all C15 wrappers, compose, toerror, fmap's error form with two or
 more results, and the split form of bind `(split 1)`: `fn, e := deriveFmap(f, g); deriveJoin(fn, e)`)
@@ -379,7 +381,16 @@ def runChain (s : DState) (fl : Flags) (name : String) (args : List SExp) : Opti
     let fail ← parseFail args
     let vs ← parseNats args "args"
     if vs.length != ins.length then none else
-    let stages := outs.zipIdx.map fun (rs, i) => stage s fail i rs (if site2 args then 10 else 0)
+    let stages0 := outs.zipIdx.map fun (rs, i) => stage s fail i rs (if site2 args then 10 else 0)
+    -- `(ifacechain 1)`: the first result of stage 0 is a pointer that stage 1 receives in an interface parameter;
+    -- `(zero 1)`: it is the nil pointer. The value is passed on unchanged: the interface holds the typed nil
+    -- pointer and is not nil — the harness observes such an interface as payload 99 (nil interface: 0)
+    let zero := (parseNats args "zero") == some [1]
+    let stages := if (findList args "ifacechain").isSome && zero then
+        match stages0 with
+        | s0 :: rest => ({ run := fun a => let (r, e) := s0.run a; (r.set 0 99, e) } : ErrChain.Stage Nat Err) :: rest
+        | [] => []
+      else stages0
     let zeros := zerosFor (outs.getLast?.getD [])
     -- building the composed function calls nothing; every invocation runs the chain
     some (answer ok (twice (showResult (ErrChain.compose zeros stages vs))) (twice (showResult (Spec.composeSpec zeros stages vs))))
